@@ -291,8 +291,14 @@ pub fn gen_slot(r: &mut Rng, mode: Mode) -> SlotCfg {
             probe_min,
             build_plan: BuildPlan::Ok,
             data_lay: match storage {
-                Storage::Owned | Storage::Shared => [Lay::C, Lay::F][r.weighted(&[5, 1])],
-                _ => [Lay::C, Lay::F, Lay::Window, Lay::Step2, Lay::Rev][r.weighted(&[5, 1, 1, 1, 1])],
+                Storage::Owned | Storage::Shared => {
+                    let mix = gen_mix(r, false);
+                    [Lay::C, Lay::F, mix][r.weighted(&[5, 1, 2])]
+                }
+                _ => {
+                    let mix = gen_mix(r, true);
+                    [Lay::C, Lay::F, Lay::Window, Lay::Step2, Lay::Rev, mix][r.weighted(&[5, 1, 1, 1, 1, 3])]
+                }
             },
             x_lay: if storage == Storage::View { [Lay::C, Lay::Step2, Lay::Rev][r.weighted(&[6, 1, 1])] } else { Lay::C },
             build_order: [0u8, 1, 2, 3][r.weighted(&[5, 2, 2, 1])],
@@ -422,7 +428,13 @@ fn gen_qshape(r: &mut Rng, ty: QTy, max_elems: usize) -> Vec<usize> {
 }
 
 fn gen_lay(r: &mut Rng) -> Lay {
-    [Lay::C, Lay::Window, Lay::F, Lay::Step2, Lay::Rev][r.weighted(&[8, 2, 1, 1, 1])]
+    let mix = gen_mix(r, true);
+    [Lay::C, Lay::Window, Lay::F, Lay::Step2, Lay::Rev, mix][r.weighted(&[8, 2, 1, 1, 1, 2])]
+}
+
+/// a general layout: axes permuted in memory, some reversed, some (views only) stepped
+fn gen_mix(r: &mut Rng, steps: bool) -> Lay {
+    Lay::Mix { perm: r.below(720) as u16, rev: if r.chance(1, 2) { r.below(64) as u8 } else { 0 }, step: if steps && r.chance(1, 3) { r.below(64) as u8 } else { 0 } }
 }
 
 struct SlotCtx {
@@ -473,7 +485,8 @@ fn gen_buf(r: &mut Rng, exact_shape: &[usize], faults: &Faults, dynamic: bool) -
         }
         _ => {
             // right shape, unusual memory layout
-            lay = *r.pick(&[Lay::Window, Lay::F, Lay::Step2, Lay::Rev]);
+            let mix = gen_mix(r, true);
+            lay = *r.pick(&[Lay::Window, Lay::F, Lay::Step2, Lay::Rev, mix, mix]);
             exact = true;
         }
     }
@@ -536,7 +549,7 @@ fn gen_call(r: &mut Rng, sc: &SlotCtx, faults: &Faults, mode: Mode) -> Call {
             };
             // xs and ys get independent memory layouts (same layout in half of the cases)
             let lay = gen_lay(r);
-            let ys_lay = if !sc.two { Lay::C } else if r.chance(1, 2) { lay } else { [Lay::C, Lay::Window, Lay::F, Lay::Step2, Lay::Rev][r.weighted(&[3, 1, 3, 1, 1])] };
+            let ys_lay = if !sc.two { Lay::C } else if r.chance(1, 2) { lay } else { let mix = gen_mix(r, true); [Lay::C, Lay::Window, Lay::F, Lay::Step2, Lay::Rev, mix][r.weighted(&[3, 1, 3, 1, 1, 2])] };
             let mut q = QSpec { ty, shape: shape.clone(), xs, ys, ys_shape: None, lay, ys_lay };
             if sc.two && faults.mismatch && r.chance(1, 10) && mode != Mode::C18 {
                 // xs and ys of different shapes: documented panic
